@@ -9,6 +9,7 @@ use vstd::std_specs::cmp::*;
 use core::mem;
 verus! {
 
+//@include _shared/std_specs.rs
 //@include _shared/rb_prelude.rs
 //@include _shared/rb_bounded.rs external
 //@include _shared/signal_prelude.rs
@@ -19,14 +20,38 @@ pub mod ring_buffer { pub use super::{Bounded, Slice, SliceMut}; }
 pub struct RefCell<T> { pub v: T }
 impl<T> RefCell<T> {
     pub fn new(v: T) -> (r: Self) ensures r.v == v { RefCell { v } }
+    pub fn into_inner(self) -> (r: T) ensures r == self.v { self.v }
+}
+
+/// local stand-in for alloc::rc::Rc (T3): `clone` shares the SAME value (the model of sharing is equality of content;
+/// that both handles alias one cell is not verified)
+pub struct Rc<T> { pub v: T }
+impl<T> Rc<T> {
+    pub fn new(v: T) -> (r: Self) ensures r.v == v { Rc { v } }
+    #[verifier::external_body]
+    pub fn clone(&self) -> (r: Self) ensures r.v == self.v { unimplemented!() }
 }
 
 //@struct file=dasp_signal/src/lib.rs name=Fork
+//@struct file=dasp_signal/src/lib.rs macro=define_branch arm=0 bind="TRc=BranchRcA;TRef=BranchRefA;SELF=A;OTHER=B" name=BranchRcA
+//@struct file=dasp_signal/src/lib.rs macro=define_branch arm=0 bind="TRc=BranchRcA;TRef=BranchRefA;SELF=A;OTHER=B" name=BranchRefA
+//@struct file=dasp_signal/src/lib.rs macro=define_branch arm=0 bind="TRc=BranchRcB;TRef=BranchRefB;SELF=B;OTHER=A" name=BranchRcB
+//@struct file=dasp_signal/src/lib.rs macro=define_branch arm=0 bind="TRc=BranchRcB;TRef=BranchRefB;SELF=B;OTHER=A" name=BranchRefB
 //@struct file=dasp_signal/src/lib.rs name=ForkShared
 
 //@impl file=dasp_signal/src/lib.rs header="impl<S, D> Fork<S, D>"
 //@item file=dasp_signal/src/lib.rs in="impl:<S, D> Fork<S, D>" kind=const name=A
 //@item file=dasp_signal/src/lib.rs in="impl:<S, D> Fork<S, D>" kind=const name=B
+//@fn file=dasp_signal/src/lib.rs in="impl:<S, D> Fork<S, D>" name=by_rc ret=r label=Fork::by_rc vis=pub
+//@spec
+        // splitting (also RE-splitting after earlier use) hands both branches the shared state unchanged:
+        // source position, queued frames and the pending flag
+        ensures r.0.shared_fork.v == self.shared, r.1.shared_fork.v == self.shared,
+//@end
+//@fn file=dasp_signal/src/lib.rs in="impl:<S, D> Fork<S, D>" name=by_ref ret=r label=Fork::by_ref vis=pub
+//@spec
+        ensures *r.0.shared_fork == old(self).shared, *r.1.shared_fork == old(self).shared,
+//@end
 //@endimpl
 
 /// view of the shared fork state: frames waiting in the ring buffer and which branch they are waiting for
